@@ -16,15 +16,17 @@ CONSTANTS Clients,     \* subscriber endpoints
           Filters,     \* filters that are tried
           MaxSteps
 
-VARIABLES now, subs, issued, wire, stopped, nsteps, hist
-vars == <<now, subs, issued, wire, stopped, nsteps, hist>>
-view == <<now, subs, issued, stopped, nsteps>>
+VARIABLES now, subs, issued, wire, stopped, nsteps, hist,
+          fate   \* fate[c]: what last happened to deliveries to endpoint c ("none", "ok", a failure kind, kind+"+hk" once
+                 \* housekeeping has removed the subscription that failed) - situation labels for the drivers only
+vars == <<now, subs, issued, wire, stopped, nsteps, hist, fate>>
+view == <<now, subs, issued, stopped, nsteps, fate>>
 
 NoSub == [known |-> FALSE, owner |-> "none", filter |-> {}, started |-> 0, dur |-> 0, errors |-> 0,
           unsub |-> FALSE, unsubAt |-> 0, ended |-> FALSE, endTo |-> FALSE]
 
 Init == /\ now = 0 /\ subs = [i \in Ids |-> NoSub] /\ issued = 0
-        /\ wire = <<>> /\ stopped = FALSE /\ nsteps = 0 /\ hist = <<>>
+        /\ wire = <<>> /\ stopped = FALSE /\ nsteps = 0 /\ hist = <<>> /\ fate = [c \in Clients |-> "none"]
 
 Log(rec) == hist' = Append(hist, rec) /\ nsteps' = nsteps + 1
 Go == ~stopped /\ nsteps < MaxSteps
@@ -42,7 +44,7 @@ Subscribe(c, f, req, endTo) ==
                                        errors |-> 0, unsub |-> FALSE, unsubAt |-> 0, ended |-> FALSE, endTo |-> endTo]]
        /\ issued' = i
        /\ Log([act |-> "Subscribe", c |-> c, f |-> f, req |-> req, endTo |-> endTo, id |-> i, res |-> "ok"])
-  /\ UNCHANGED <<now, wire, stopped>>
+  /\ UNCHANGED <<now, wire, stopped, fate>>
 
 \* a request that names subscription i; "known" as long as housekeeping has not removed it
 Renew(i, req) ==
@@ -51,10 +53,10 @@ Renew(i, req) ==
      THEN /\ subs' = [subs EXCEPT ![i].started = now, ![i].dur = Grant(req)]
           /\ Log([act |-> "Renew", id |-> i, req |-> req, res |-> "ok"])
      ELSE /\ UNCHANGED subs /\ Log([act |-> "Renew", id |-> i, req |-> req, res |-> "fault"])
-  /\ UNCHANGED <<now, issued, wire, stopped>>
+  /\ UNCHANGED <<now, issued, wire, stopped, fate>>
 
 GetStatus(i) ==
-  /\ Go /\ UNCHANGED <<now, subs, issued, wire, stopped>>
+  /\ Go /\ UNCHANGED <<now, subs, issued, wire, stopped, fate>>
   /\ Log([act |-> "GetStatus", id |-> i, res |-> IF subs[i].known THEN "ok" ELSE "fault"])
 
 Unsubscribe(i) ==
@@ -63,9 +65,9 @@ Unsubscribe(i) ==
      THEN /\ subs' = [subs EXCEPT ![i].unsub = TRUE, ![i].unsubAt = now]
           /\ Log([act |-> "Unsubscribe", id |-> i, res |-> "ok"])
      ELSE /\ UNCHANGED subs /\ Log([act |-> "Unsubscribe", id |-> i, res |-> "fault"])
-  /\ UNCHANGED <<now, issued, wire, stopped>>
+  /\ UNCHANGED <<now, issued, wire, stopped, fate>>
 
-Tick == /\ Go /\ now' = now + 1 /\ UNCHANGED <<subs, issued, wire, stopped>> /\ Log([act |-> "Tick"])
+Tick == /\ Go /\ now' = now + 1 /\ UNCHANGED <<subs, issued, wire, stopped, fate>> /\ Log([act |-> "Tick"])
 
 \* a report with action a; fail = set of clients whose endpoint fails for this delivery, kind = how
 Report(a, fail, kind) ==
@@ -75,7 +77,11 @@ Report(a, fail, kind) ==
        /\ subs' = [i \in Ids |-> IF i \in to
                                  THEN [subs[i] EXCEPT !.errors = IF subs[i].owner \in fail THEN @ + 1 ELSE 0]
                                  ELSE subs[i]]
-       /\ Log([act |-> "Report", a |-> a, fail |-> fail, kind |-> kind, to |-> to])
+       /\ fate' = [c \in Clients |-> IF \E i \in to : subs[i].owner = c
+                                      THEN (IF c \in fail THEN kind ELSE "ok") ELSE fate[c]]
+       \* situation: a notification goes out to an endpoint whose earlier deliveries had this fate
+       /\ Log([act |-> "Report", a |-> a, fail |-> fail, kind |-> kind, to |-> to,
+               sit |-> {"N:" \o fate[subs[i].owner] \o ">" \o (IF subs[i].owner \in fail THEN kind ELSE "ok") : i \in to}])
   /\ UNCHANGED <<now, issued, stopped>>
 
 \* a report is on its way to the subscribers one after the other (or concurrently) when something else happens: another
@@ -95,12 +101,17 @@ ReportDuring(a, evk, j) ==
              /\ subs' = [i \in Ids |-> IF i \in got THEN [subs1[i] EXCEPT !.errors = 0] ELSE subs1[i]]
              /\ now' = now1
              /\ Log([act |-> "ReportDuring", a |-> a, ev |-> evk, j |-> j, first |-> first, to |-> got])
-  /\ UNCHANGED <<issued, stopped>>
+  /\ UNCHANGED <<issued, stopped, fate>>
 
 Housekeeping ==
   /\ Go
   /\ subs' = [i \in Ids |-> IF subs[i].known /\ (~Valid(subs[i]) \/ (subs[i].unsub /\ now > subs[i].unsubAt + 1))
                             THEN NoSub ELSE subs[i]]
+  /\ fate' = [c \in Clients |->
+               IF fate[c] \in {"http_error", "refused", "timeout"}
+                  /\ (\E i \in Ids : subs[i].known /\ subs[i].owner = c /\ subs'[i] = NoSub)
+                  /\ ~(\E i \in Ids : subs'[i].known /\ subs'[i].owner = c)
+               THEN fate[c] \o "+hk" ELSE fate[c]]
   /\ UNCHANGED <<now, issued, wire, stopped>>
   /\ Log([act |-> "Housekeeping"])
 
@@ -109,7 +120,7 @@ Stop(sendEnd) ==
   /\ wire' = wire \o [n \in 1..(IF sendEnd THEN Cardinality({i \in Ids : Alive(i)}) ELSE 0) |-> "End"]
   /\ subs' = [i \in Ids |-> NoSub]
   /\ stopped' = TRUE
-  /\ UNCHANGED <<now, issued>>
+  /\ UNCHANGED <<now, issued, fate>>
   /\ Log([act |-> "Stop", sendEnd |-> sendEnd, ends |-> IF sendEnd THEN {i \in Ids : Alive(i)} ELSE {}])
 
 Next == \/ \E c \in Clients, f \in Filters, req \in ReqVals, e \in BOOLEAN : Subscribe(c, f, req, e)
